@@ -136,4 +136,10 @@ def grfParts (pa : List (List Nat)) (la : List Nat) (pb : List (List Nat)) (lb :
   if iA = 0 then none else
   some ((iA - emod, iA), ((iA + iB : Int) - 2 * e, iA + iB))
 
+/-- `get_bipartition` on both trees, then the two formulas; `none` where the code raises -/
+def treeDist (t x : Tree) : Option ((Nat × Nat) × (Int × Nat)) :=
+  match scan (elems t), scan (elems x) with
+  | some pa, some pb => grfParts (bipartition pa).1 (bipartition pa).2 (bipartition pb).1 (bipartition pb).2
+  | _, _ => none
+
 end Verif.TreeDist
